@@ -218,7 +218,9 @@ JudgeK(k, r) ==
                         ELSE IF r.cmd = LRTY THEN (IF r_lbadOwed THEN "env_lrty_illegal" ELSE "ok")
                         ELSE "ok"
     [] r.e = "dp_offer" -> IF ~k.up THEN "env_data_while_down" ELSE IF k.dpPend THEN "env_data_overlap" ELSE "ok"
-    [] r.e = "acc"   -> IF k.dpPend THEN "env_offer_during_data_packet" ELSE Tx!AcceptJudge
+    \* (a header taken in the very cycle the link drops is dropped with everything else that was queued)
+    [] r.e = "acc"   -> IF k.dpPend THEN "env_offer_during_data_packet"
+                        ELSE IF ~k.up /\ k.sDown = 0 THEN "ok" ELSE Tx!AcceptJudge
     [] r.e = "consume" ->
                         IF r_buf = <<>> THEN "consume_nothing_buffered"
                         ELSE IF Head(r_buf).c # r.c THEN "consume_wrong_header"
@@ -311,7 +313,7 @@ ApplyK(k, r) ==
                ELSE IF r.cmd = LRTY THEN Rx!PartnerLrty /\ UNCHANGED <<txv, todo>>
                ELSE UNCHANGED <<rxv, txv, todo>>
        [] r.e = "dp_offer" -> lk' = [k EXCEPT !.dpPend = TRUE] /\ UNCHANGED <<rxv, txv, todo>>
-       [] r.e = "acc"   -> Tx!Accept(r.c) /\ lk' = k /\ UNCHANGED <<rxv, todo>>
+       [] r.e = "acc"   -> (IF k.up THEN Tx!Accept(r.c) ELSE UNCHANGED txv) /\ lk' = k /\ UNCHANGED <<rxv, todo>>
        [] r.e = "consume" -> Rx!Consume /\ lk' = k /\ UNCHANGED <<txv, todo>>
        [] r.e = "up"    ->
             /\ Rx!LinkUp /\ Tx!LinkUp
